@@ -161,7 +161,8 @@ def finish(ctx: Ctx, t0: float, seed: int, selftest: Optional[dict] = None) -> i
     if selftest:
         out.append(f"  self-test: mutants fired {selftest['fired']}/{selftest['armed']} "
                    f"(skipped {selftest['skipped']}), twins silent {selftest['twins_silent']}/{selftest['twins']}, "
-                   f"seeded fired {selftest.get('seeded_fired', 0)}/{selftest.get('seeded', 0)}")
+                   f"seeded fired {selftest.get('seeded_fired', 0)}/{selftest.get('seeded', 0)}, "
+                   f"refactoring twins silent {selftest.get('refactor_twins_silent', 0)}/{selftest.get('refactor_twins', 0)}")
         for m in selftest.get("missed", []):
             out.append(f"  self-test MISSED: {m}")
         for m in selftest.get("noisy", []):
